@@ -55,8 +55,76 @@ def _load(sim, text):
         return ex
 
 
+def check_midrun(case, stats):
+    """load/step/run in any interleaving: a simulation that is in the middle of one program is loaded again (with any
+    text: valid, empty, failing); from that common state run() must still equal stepping until done, step() must return
+    whether the simulation is not done, and done must be stable.  Both twins replay the identical call history."""
+    from architecture_simulator.simulation.runtime_errors import InstructionExecutionException
+    cfg = case["sim"]
+    twins = []
+    for _ in range(2):
+        s = _new(cfg)
+        if _load(s, case["first"]) is not None:
+            stats.count(case, False, {"midrun", "first-load-fails"})
+            return
+        try:
+            for _k in range(case["steps"]):
+                s.step()
+        except InstructionExecutionException:
+            stats.count(case, False, {"midrun", "first-program-faults"})
+            return
+        err = _load(s, case["second"])
+        twins.append((s, err))
+    (s1, e1), (s2, e2) = twins
+    if (e1 is None) != (e2 is None):
+        raise Violation("midrun-load-nondeterministic", case, f"{e1!r} vs {e2!r}")
+    if _snap(s1, cfg) != _snap(s2, cfg):
+        raise Violation("midrun-load-nondeterministic", case, "two identical call histories gave different states")
+    n = 0
+    fault = None
+    while n < case["bound"] and not s1.is_done():
+        try:
+            r = s1.step()
+        except InstructionExecutionException as ex:
+            fault = ex
+            break
+        except Exception as ex:
+            raise Violation("step-raises-other", case, f"{type(ex).__name__}: {ex}")
+        n += 1
+        if bool(r) != (not s1.is_done()):
+            raise Violation("step-return-value", case, f"step #{n} after a mid-run load returned {r!r} but is_done() is {s1.is_done()} afterwards")
+    tags = {"midrun", "kind:" + cfg["kind"], "second-load-fails" if e1 is not None else "second-load-ok"}
+    if fault is not None:
+        try:
+            s2.run()
+            raise Violation("run-misses-fault", case, f"stepping raised {fault!r}, run() returned normally")
+        except InstructionExecutionException as ex:
+            if ex.address != fault.address:
+                raise Violation("run-fault-differs", case, f"{ex!r} vs {fault!r}")
+        stats.count(case, True, tags | {"end:fault"}, sample_tag="midrun:" + cfg["kind"])
+        return
+    if not s1.is_done():
+        stats.count(case, False, tags | {"end:bound"})
+        return
+    final = _snap(s1, cfg)
+    try:
+        s2.run()
+    except Exception as ex:
+        raise Violation("run-raises", case, f"stepping finished normally but run() raised {type(ex).__name__}: {ex}")
+    b = _snap(s2, cfg)
+    if b != final:
+        raise Violation("run-differs-from-stepping", case, f"after a mid-run load: differs in {snap.diff_keys(final, b)} (stepping needed {n} steps)")
+    r = s1.step()
+    s1.run()
+    if r is not False or _snap(s1, cfg) != final:
+        raise Violation("done-not-stable", case, "step()/run() after done changed the state or step() did not return False")
+    stats.count(case, n >= 1, tags | {"end:done", "stepped-after-midrun-load" if n else "done-at-once"}, sample_tag="midrun:" + cfg["kind"])
+
+
 def check(case, stats):
     from architecture_simulator.simulation.runtime_errors import InstructionExecutionException
+    if case.get("kind") == "midrun":
+        return check_midrun(case, stats)
     cfg = case["sim"]
     s1 = _new(cfg)
     failed = 0
@@ -216,6 +284,19 @@ def case_strategy(draw):
             "after": draw(st.lists(st.sampled_from(after_calls), min_size=1, max_size=5))}
 
 
+@st.composite
+def midrun_case(draw):
+    kind = draw(st.sampled_from(["single", "five", "five", "five", "toy"]))
+    if kind == "toy":
+        cfg = {"kind": "toy"}
+        good, broken = toy_program_text(), BROKEN_TOY
+    else:
+        cfg = {"kind": kind, "dcache": draw(cachecfg.maybe(cachecfg.small_cache_config())), "icache": draw(cachecfg.maybe(cachecfg.small_cache_config()))}
+        good, broken = rv_program_text(), BROKEN_RV
+    second = draw(st.one_of(good, st.sampled_from(EMPTY), st.sampled_from(EMPTY), st.sampled_from(broken)))
+    return {"kind": "midrun", "sim": cfg, "first": draw(good), "steps": draw(st.integers(1, 8)), "second": second, "bound": draw(st.sampled_from([60, 300]))}
+
+
 def corpus():
     return [
         {"sim": {"kind": "five", "dcache": {"idx": 0, "blk": 0, "ways": 1, "type": "wb", "repl": "lru", "pen": 2}, "icache": {"idx": 0, "blk": 1, "ways": 1, "type": "wb", "repl": "lru", "pen": 1}},
@@ -230,8 +311,9 @@ def corpus():
 
 def shards(tier, seed):
     n, k = (250, 4) if tier == "quick" else (1500, 16)
-    return [{"n": n, "seed": seed * 1000 + i} for i in range(k)]
+    return [{"n": n, "seed": seed * 1000 + i} for i in range(k)] + [{"what": "midrun", "n": n // 2, "seed": seed * 1000 + 500 + i} for i in range(max(1, k // 4))]
 
 
 def run_shard(item, stats):
-    core.hyp_search(case_strategy(), check, stats, item["n"], item["seed"], core.known_matcher(ID, globals().get("known_match")))
+    strat = midrun_case() if item.get("what") == "midrun" else case_strategy()
+    core.hyp_search(strat, check, stats, item["n"], item["seed"], core.known_matcher(ID, globals().get("known_match")))
